@@ -41,6 +41,23 @@ partial def nfOfJson : Json → Except String NFilter
     | _, _, _, _, _, _, _ => .error "bad-args"
   | _ => .error "bad-args"
 
+partial def sfOfJson : Json → Except String SFilter
+  | .bool b => .ok (.bool b)
+  | .null => .ok .none_
+  | .str "ellipsis" => .ok .ellipsis
+  | j@(.obj _) =>
+    match j.getObjVal? "str", j.getObjVal? "type", j.getObjVal? "seq", j.getObjVal? "any",
+          j.getObjVal? "all", j.getObjVal? "not", j.getObjVal? "pred" with
+    | .ok t, _, _, _, _, _, _ => do .ok (.str (← asStr t))
+    | _, .ok t, _, _, _, _, _ => do .ok (.type (← asStr t))
+    | _, _, .ok fs, _, _, _, _ => do .ok (.seq (← asList sfOfJson fs))
+    | _, _, _, .ok fs, _, _, _ => do .ok (.any (← asList sfOfJson fs))
+    | _, _, _, _, .ok fs, _, _ => do .ok (.allOf (← asList sfOfJson fs))
+    | _, _, _, _, _, .ok f, _ => do .ok (.not (← sfOfJson f))
+    | _, _, _, _, _, _, .ok f => do .ok (.pred (← nfOfJson f))
+    | _, _, _, _, _, _, _ => .error "bad-args"
+  | _ => .error "bad-args"
+
 def infoOfJson (j : Json) : Except String VarInfo := do
   let ts ← (j.getObjVal? "types").mapError (fun _ => "bad-args")
   let types ← asList asStr ts
@@ -77,6 +94,16 @@ def handle : Handler := fun fn args =>
       let fs ← asList nfOfJson (← argAt args 0)
       let items ← asList itemOfJson (← argAt args 1)
       .ok (.arr (items.map (fun it => (firstMatch fs it.1 it.2 : Nat) |> fun n => Json.num n)).toArray)
+  | "lit_denote" => do
+      let f ← sfOfJson (← argAt args 0)
+      let items ← asList itemOfJson (← argAt args 1)
+      .ok (.arr (items.map (fun it => Json.bool (denote (toPredicate f) it.1 it.2))).toArray)
+  | "lit_split" => do
+      let fs ← asList sfOfJson (← argAt args 0)
+      let items ← asList itemOfJson (← argAt args 1)
+      match filtersToPredicates fs with
+      | none => .ok (.str "ValueError")
+      | some ps => .ok (.arr (items.map (fun it => Json.num (firstMatch ps it.1 it.2 : Nat))).toArray)
   | "ellipsis_ok" => do
       let es ← asList asBool (← argAt args 0)
       .ok (.bool (ellipsisOk es))
